@@ -15,6 +15,12 @@ CONSTANTS
   Mode = "api"
   MaxLines = 0
   Variant = "replace_all_bam"
+  NoCols = {FALSE}
+  AddChrs = {FALSE}
+  DupFlags = {FALSE}
+  LowQFlags = {FALSE}
+  PosMax = 1
+  MapqReading = "ignored"
 INVARIANT Inv_X05_NoCrash
 INVARIANT Inv_X05_Refused
 INVARIANT Inv_X05_Files
